@@ -168,4 +168,121 @@ theorem finalize_last' (rate : Int → Int) (n total : Int) (alloc : List Int) (
   rw [layerLoop_length] at this
   exact this
 
+/-! ### generic parameter extraction: each key only touches its own field -/
+theorem g1_Rate (g : GParams) (p : LParams) : (g1 g p).Rate = p.Rate := by
+  unfold g1; cases g.numLevels <;> simp only [] <;> (try split) <;> rfl
+
+theorem g2_Rate (g : GParams) (p : LParams) : (g2 g p).Rate = p.Rate := by
+  unfold g2; cases g.allowMCT <;> simp only [] <;> (try split) <;> rfl
+
+theorem g4_Rate (g : GParams) (p : LParams) : (g4 g p).Rate = p.Rate := by
+  unfold g4; cases g.rateLevels <;> simp only [] <;> (try split) <;> rfl
+
+theorem g5_Rate (g : GParams) (p : LParams) : (g5 g p).Rate = p.Rate := by
+  unfold g5; cases g.progressionOrder <;> simp only [] <;> (try split) <;> rfl
+
+theorem g6_Rate (g : GParams) (p : LParams) : (g6 g p).Rate = p.Rate := by
+  unfold g6; cases g.numLayers <;> simp only [] <;> (try split) <;> rfl
+
+theorem g7_Rate (g : GParams) (p : LParams) : (g7 g p).Rate = p.Rate := by
+  unfold g7; cases g.targetRatio <;> simp only [] <;> (try split) <;> rfl
+
+theorem g8_Rate (g : GParams) (p : LParams) : (g8 g p).Rate = p.Rate := by
+  unfold g8; cases g.usePCRDOpt <;> simp only [] <;> (try split) <;> rfl
+
+theorem g9_Rate (g : GParams) (p : LParams) : (g9 g p).Rate = p.Rate := by
+  unfold g9; cases g.appendLosslessLayer <;> simp only [] <;> (try split) <;> rfl
+
+theorem g1_ProgressionOrder (g : GParams) (p : LParams) : (g1 g p).ProgressionOrder = p.ProgressionOrder := by
+  unfold g1; cases g.numLevels <;> simp only [] <;> (try split) <;> rfl
+
+theorem g2_ProgressionOrder (g : GParams) (p : LParams) : (g2 g p).ProgressionOrder = p.ProgressionOrder := by
+  unfold g2; cases g.allowMCT <;> simp only [] <;> (try split) <;> rfl
+
+theorem g3_ProgressionOrder (g : GParams) (p : LParams) : (g3 g p).ProgressionOrder = p.ProgressionOrder := by
+  unfold g3; cases g.rate <;> simp only [] <;> (try split) <;> rfl
+
+theorem g4_ProgressionOrder (g : GParams) (p : LParams) : (g4 g p).ProgressionOrder = p.ProgressionOrder := by
+  unfold g4; cases g.rateLevels <;> simp only [] <;> (try split) <;> rfl
+
+theorem g6_ProgressionOrder (g : GParams) (p : LParams) : (g6 g p).ProgressionOrder = p.ProgressionOrder := by
+  unfold g6; cases g.numLayers <;> simp only [] <;> (try split) <;> rfl
+
+theorem g7_ProgressionOrder (g : GParams) (p : LParams) : (g7 g p).ProgressionOrder = p.ProgressionOrder := by
+  unfold g7; cases g.targetRatio <;> simp only [] <;> (try split) <;> rfl
+
+theorem g8_ProgressionOrder (g : GParams) (p : LParams) : (g8 g p).ProgressionOrder = p.ProgressionOrder := by
+  unfold g8; cases g.usePCRDOpt <;> simp only [] <;> (try split) <;> rfl
+
+theorem g9_ProgressionOrder (g : GParams) (p : LParams) : (g9 g p).ProgressionOrder = p.ProgressionOrder := by
+  unfold g9; cases g.appendLosslessLayer <;> simp only [] <;> (try split) <;> rfl
+
+theorem g1_AppendLosslessLayer (g : GParams) (p : LParams) : (g1 g p).AppendLosslessLayer = p.AppendLosslessLayer := by
+  unfold g1; cases g.numLevels <;> simp only [] <;> (try split) <;> rfl
+
+theorem g2_AppendLosslessLayer (g : GParams) (p : LParams) : (g2 g p).AppendLosslessLayer = p.AppendLosslessLayer := by
+  unfold g2; cases g.allowMCT <;> simp only [] <;> (try split) <;> rfl
+
+theorem g3_AppendLosslessLayer (g : GParams) (p : LParams) : (g3 g p).AppendLosslessLayer = p.AppendLosslessLayer := by
+  unfold g3; cases g.rate <;> simp only [] <;> (try split) <;> rfl
+
+theorem g4_AppendLosslessLayer (g : GParams) (p : LParams) : (g4 g p).AppendLosslessLayer = p.AppendLosslessLayer := by
+  unfold g4; cases g.rateLevels <;> simp only [] <;> (try split) <;> rfl
+
+theorem g5_AppendLosslessLayer (g : GParams) (p : LParams) : (g5 g p).AppendLosslessLayer = p.AppendLosslessLayer := by
+  unfold g5; cases g.progressionOrder <;> simp only [] <;> (try split) <;> rfl
+
+theorem g6_AppendLosslessLayer (g : GParams) (p : LParams) : (g6 g p).AppendLosslessLayer = p.AppendLosslessLayer := by
+  unfold g6; cases g.numLayers <;> simp only [] <;> (try split) <;> rfl
+
+theorem g7_AppendLosslessLayer (g : GParams) (p : LParams) : (g7 g p).AppendLosslessLayer = p.AppendLosslessLayer := by
+  unfold g7; cases g.targetRatio <;> simp only [] <;> (try split) <;> rfl
+
+theorem g8_AppendLosslessLayer (g : GParams) (p : LParams) : (g8 g p).AppendLosslessLayer = p.AppendLosslessLayer := by
+  unfold g8; cases g.usePCRDOpt <;> simp only [] <;> (try split) <;> rfl
+
+theorem extract_rate (g : GParams) : (extractGeneric g).Rate > 0 := by
+  unfold extractGeneric
+  rw [g9_Rate, g8_Rate, g7_Rate, g6_Rate, g5_Rate, g4_Rate]
+  have h0 : (g2 g (g1 g defaultLParams)).Rate = 20 := by rw [g2_Rate, g1_Rate]; rfl
+  unfold g3
+  cases g.rate with
+  | none => simp only []; omega
+  | some r => simp only []; split <;> simp_all <;> omega
+
+theorem extract_prog (g : GParams) : 0 ≤ (extractGeneric g).ProgressionOrder := by
+  unfold extractGeneric
+  rw [g9_ProgressionOrder, g8_ProgressionOrder, g7_ProgressionOrder, g6_ProgressionOrder]
+  have h0 : (g4 g (g3 g (g2 g (g1 g defaultLParams)))).ProgressionOrder = 0 := by
+    rw [g4_ProgressionOrder, g3_ProgressionOrder, g2_ProgressionOrder, g1_ProgressionOrder]; rfl
+  unfold g5
+  cases g.progressionOrder with
+  | none => simp only []; omega
+  | some x => simp only []; split <;> simp_all <;> omega
+
+theorem extract_append (g : GParams) :
+    (extractGeneric g).AppendLosslessLayer = true ↔ g.appendLosslessLayer ≠ some false := by
+  unfold extractGeneric
+  have h0 : (g8 g (g7 g (g6 g (g5 g (g4 g (g3 g (g2 g (g1 g defaultLParams)))))))).AppendLosslessLayer = true := by
+    rw [g8_AppendLosslessLayer, g7_AppendLosslessLayer, g6_AppendLosslessLayer, g5_AppendLosslessLayer,
+      g4_AppendLosslessLayer, g3_AppendLosslessLayer, g2_AppendLosslessLayer, g1_AppendLosslessLayer]; rfl
+  unfold g9
+  cases h : g.appendLosslessLayer with
+  | none => simp [h0]
+  | some b => cases b <;> simp
+
+theorem validate_rate_pos (p : LParams) (h : p.Rate > 0) : (validate p).Rate = p.Rate := by
+  have r1 : (v1 p).Rate = p.Rate := by unfold v1; split <;> rfl
+  have r2 : ∀ q : LParams, (v2 q).Rate = q.Rate := by intro q; unfold v2; split <;> rfl
+  have r3 : ∀ q : LParams, q.Rate > 0 → (v3 q).Rate = q.Rate := by
+    intro q hq; unfold v3; split
+    · omega
+    · rfl
+  have r4 : ∀ q : LParams, (v4 q).Rate = q.Rate := by intro q; unfold v4; split <;> rfl
+  have r5 : ∀ q : LParams, (v5 q).Rate = q.Rate := by intro q; unfold v5; split <;> rfl
+  have r6 : ∀ q : LParams, (v6 q).Rate = q.Rate := by intro q; unfold v6; split <;> rfl
+  have r7 : ∀ q : LParams, (v7 q).Rate = q.Rate := by intro q; unfold v7; split <;> rfl
+  unfold validate
+  rw [r7, r6, r5, r4, r3 _ (by rw [r2, r1]; exact h), r2, r1]
+
 end J2kL
